@@ -15,7 +15,7 @@ CM = "/opt/veriftools/tla/CommunityModules-deps.jar"
 
 # many short single-worker JVMs side by side: the parallel collector and the C2 compiler threads of 16
 # JVMs fight for the cores (measured: 16 shards 26 s -> 4.7 s with these flags)
-SMALL_JVM = ("-XX:+UseSerialGC", "-XX:TieredStopAtLevel=1", "-XX:-UsePerfData")
+SMALL_JVM = ("-XX:+UseSerialGC", "-XX:TieredStopAtLevel=1", "-XX:-UsePerfData", "-Xss64m")
 
 
 class Scratch(object):
